@@ -197,10 +197,18 @@ func (b *Batch) Commit() error {
 	logRecord := b.db.recordPool.Get().(*datafile.LogRecord)
 	logRecord.Key = append(logRecord.Key, b.batchID.Bytes()...)
 	logRecord.Type = datafile.LogRecordBatchFinished
+	// 完成标识记录必须携带所属批次 id, 重启时据此应用该批次的全部记录
+	logRecord.BatchID = uint64(b.batchID)
 	_, err = b.db.activeFile.WriteLogRecord(logRecord, b.db.logRecordHeader)
 	b.db.putRecordToPool(logRecord)
 	if err != nil {
 		return err
+	}
+	// 完成标识记录同样需要按配置持久化
+	if b.options.Sync {
+		if err := b.db.activeFile.Sync(); err != nil {
+			return err
+		}
 	}
 
 	b.staged = nil
